@@ -27,6 +27,7 @@ pub fn run(id: &str, tier: &str) -> i32 {
         "C15" => sessions::check_c15(tier),
         "C16" => filter::check_c16(tier),
         "C17" => server_family::check_c17(tier),
+        "C19" => ffi::check_c19(tier),
         "C20" => decode::check_c20(tier),
         _ => {
             eprintln!("unknown or unimplemented property {id}");
@@ -70,6 +71,7 @@ pub fn replay(path: &str) -> i32 {
         Some("c09") | Some("c09-probe") => tls::replay_c09(scn),
         Some("c15") => sessions::replay_c15(scn),
         Some("c16-string") | Some("c16-match") | Some("c16-server") | Some("c16-ffi") => filter::replay_c16(scn),
+        Some("c19-db") | Some("c19-schedule") => ffi::replay_c19(scn),
         Some("client-sm") => client_sm::replay(scn),
         Some("client-stream") => framing::replay_client_stream(scn),
         k => {
